@@ -38,19 +38,22 @@ META = {
                  'separator set, RX-3/4), no Unicode-whitespace str API is applied to source text outside reasoned sites '
                  '(RX-11), token kinds whose value language contains a line break never map to the single-line end_pos '
                  'leaf classes (TREE-8, language emptiness); no position-derived memo on a tree class survives the in-place '
-                 'incremental re-parse (TREE-6, dominators). Positions themselves are numeric and not decided.',
+                 'incremental re-parse (TREE-6, dominators); the start position of f-string text is stored in the text finder on every '
+                 'CFG path to a return of fresh text (TOK-11, must-pass-through). Positions themselves are numeric and not decided.',
         'note': _TB + 'Reference set of splitlines separators is computed from the interpreter (CPython behaviour, not parso).',
-        'technique': 'regular-language equality / emptiness over re syntax trees + API-ban lint with reasoned sites',
+        'technique': 'regular-language equality / emptiness over re syntax trees + API-ban lint with reasoned sites + must-pass-through on the CFG of the f-string text finder',
     },
     'C04': {
         'level': 'Decides the two clauses that are literally in the statement and visible in code shape: every memo slot of a '
                  'tree class (lazily filled under an is-None test; found by analysis, today Module._used_names) is reset by '
                  'DiffParser.update before anything else happens, update returns the module only after _nodes_tree.close() '
                  '(TREE-6, dominators), and every children-list write in diff.py sets the parents of what it places (TREE-1); '
-                 'the position code the diff parser\'s line arithmetic is derived from recognises \\n and \\r alike (RX-10). '
+                 'the position code the diff parser\'s line arithmetic is derived from recognises \\n and \\r alike (RX-10); after '
+                 'every removal from the list of copied nodes the pending-newline question is asked of the then-last node on '
+                 'every path to a return of a non-empty list (DIFF-2, fact-sensitive must-pass-through). '
                  'The equivalence with a fresh parse over edit histories is value/heuristic driven and not decided.',
         'note': _TB,
-        'technique': 'dominator analysis on the CFG of DiffParser.update + parent/children pairing rule',
+        'technique': 'dominator analysis on the CFG of DiffParser.update + parent/children pairing rule + fact-sensitive must-pass-through on the CFG of the node copier',
     },
     'C05': {
         'level': 'Decides who creates nodes and from which states: reductions only behind is_final (PAR-3), node / error node / '
@@ -159,16 +162,18 @@ META = {
                  'type, delegated or special-cased (GR-8b), text comparisons in the helpers are leaf-category safe (TC-1), no '
                  'unbound local in python/tree.py (DA); helper results memoised on the tree are reset by the incremental '
                  'parser (TREE-6); Name.get_definition never gives up under a node type its sibling _defined_names finds '
-                 'targets through (GR-8d). Agreement with CPython\'s ast over all programs is not decided.',
+                 'targets through (GR-8d); no index into a child list is computed from an amount of text (DIM-1, dimension analysis '
+                 'with function summaries). Agreement with CPython\'s ast over all programs is not decided.',
         'note': _TB + 'Three listed known findings (inline := in argument / dictorsetmaker / subscript).',
-        'technique': 'grammar reachability with tree-shape conventions vs. helper tables + leaf-category analysis',
+        'technique': 'grammar reachability with tree-shape conventions vs. helper tables + leaf-category analysis + position/character dimension analysis',
     },
     'C15': {
         'level': 'Decides over all strings: split_lines breaks exactly at \\n, \\r\\n, \\r and its keepends branch is '
                  'conservative (RX-3/4); the text in which parso finds a PEP 263 declaration equals the text in which CPython\'s '
                  'cookie_re / blank-line rule finds one (RX-5, inclusion both ways, reference pattern folded from '
                  'Lib/tokenize.py), an unterminated last line is seen (RX-6), BOM test first; no memoising wrapper hands one '
-                 'mutable line list to several callers (EFF-6). Codec behaviour is not decided.',
+                 'mutable line list to several callers (EFF-6); file content reaches the decoder as bytes (RX-5d: binary opens only, '
+                 'no decode between file_io.read() and python_bytes_to_unicode). Codec behaviour is not decided.',
         'note': _TB,
         'technique': 'regular-language inclusion / equality (bytes alphabet) against the folded CPython cookie pattern',
     },
